@@ -3,7 +3,12 @@ Real BlobServerProtocol over a real BlobManager+SQLiteStorage, real request_blob
 writing into a second real BlobManager, connected by in-memory byte streams (vlib/memnet.py) whose both
 directions are re-chunked by a seeded plan, on the virtual-clock loop (vlib/vclock.py).  Arrangements:
 honest<->honest, real client vs scripted hostile server, scripted hostile client vs real server while an
-honest client downloads.  Oracle X1-X6 (DESIGN §4 C10) with a wire monitor on the server->client stream."""
+honest client downloads.  Oracle X1-X6 (DESIGN §4 C10) with a wire monitor on the server->client stream.
+Two more arrangements drive the server through its real entry point BlobServer.start_server (loop.create_server mapped onto the
+in-memory net): (vi) one request byte string per connection under a catalogue of fragmentations - the server's verdict on it
+(answered / refused) must not depend on where the stream was cut (X7); (vii) a link with a finite send window (asyncio's
+pause_writing/resume_writing contract) and a server configured with idle_timeout != transfer_timeout: a slow honest reader, a reader
+that stalls mid-blob, a silent connection (X8)."""
 import asyncio
 import hashlib
 import json
@@ -19,18 +24,26 @@ LEVEL = 'exploration'
 RULE = ('case = arrangement x blob set (1 byte .. 2 MiB, sd-blob JSON, content crafted to look like protocol JSON) x fragmentation plan per '
         'direction (1-byte, header alone, header glued to k body bytes, MTU, 64 KiB, coalesce-all, random) x for hostile arrangements one '
         'misbehaviour from the catalogue at a message position. distinct = hash(arrangement, misbehaviour, length class, known/unknown length, '
-        'plans, position); non-trivial = everything except a single honest transfer with coalesce-all plans')
+        'plans, position); non-trivial = everything except a single honest transfer with coalesce-all plans. request_cap: padded single-'
+        'brace requests (sizes around and above the server\'s request cap) x fragmentation catalogue; slow_link: (idle, transfer) '
+        'timeout configuration x blob size x pace of the reader')
 ASSUMPTIONS = ['the byte stream is modelled in memory (fragment boundaries are exactly the data_received calls a TCP stream could produce); '
                'no real sockets, so kernel-level behaviours (RST, half-open) are not exercised',
                'deadlines are virtual seconds: connect_timeout + 2 x peer_timeout for the client, idle_timeout + transfer_timeout for the server',
                'an exception raised inside data_received closes the connection (asyncio semantics) and is not itself a violation',
-               'a header followed by the complete correct bytes plus excess bytes IS a complete correct copy (the client caps at the announced length)']
+               'a header followed by the complete correct bytes plus excess bytes IS a complete correct copy (the client caps at the announced length)',
+               'slow links are modelled by a send window on the in-memory stream: the writing transport tells its protocol to pause above '
+               '64 KiB undelivered bytes and to resume below 16 KiB (asyncio defaults), deliveries are paced by the fragment plan',
+               'an honest transfer is owed completion only if it needs less than the server\'s configured transfer_timeout; whether a stalled '
+               'transfer is cut at transfer_timeout or only by idle_timeout + transfer_timeout is logged, not judged']
 REQUIRED_HITS = ['X5.pair_checked', 'X2.orphan_file_blob', 'X5.race_checked', 'X1.checked', 'X2.honest_transfer', 'X2.blanks_content', 'X2.sequential_on_one_connection', 'X2.header_alone', 'X2.one_byte_fragments',
                  'X2.header_glued', 'X2.big_blob', 'X2.sd_blob', 'X3.client_liar_checked', 'X3.server_hostile_client_checked', 'X4.wire_checked',
                  'X4.not_held_request', 'X5.concurrent_honest_ok', 'X6.liar_then_honest', 'liar.wrong_hash', 'liar.wrong_length_unknown',
                  'liar.wrong_length_known', 'liar.flip', 'liar.short_stall', 'liar.short_close', 'liar.excess', 'liar.malformed_json',
                  'liar.huge_header', 'liar.not_available', 'liar.price', 'liar.error_object', 'liar.second_header', 'hostile_client.oversize',
-                 'hostile_client.invalid_json', 'hostile_client.invalid_hash', 'hostile_client.disconnect_mid_transfer', 'hostile_client.slow_partial']
+                 'hostile_client.invalid_json', 'hostile_client.invalid_hash', 'hostile_client.disconnect_mid_transfer', 'hostile_client.slow_partial',
+                 'X7.request_verdict_checked', 'X7.refused_whole', 'X7.served_whole', 'X7.oversized_in_fragments_below_cap',
+                 'X8.slow_transfer_longer_than_idle_timeout', 'X8.stalled_reader_checked', 'X8.silent_connection_checked']
 MAX = 2 * 1024 * 1024
 CT, PT = 3.0, 5.0            # client connect / peer timeouts (virtual s)
 IDLE, XFER = 30.0, 60.0      # server idle / transfer timeouts (virtual s)
@@ -40,6 +53,8 @@ LIARS = ['wrong_hash', 'wrong_length_shorter', 'wrong_length_longer', 'wrong_len
          'unknown_keys', 'not_available', 'price', 'error_object', 'second_header', 'silent', 'close_immediately', 'header_only_then_close']
 PAIR_LIARS = ['flip', 'short_close', 'short_stall', 'wrong_hash', 'junk_before_header', 'malformed_json', 'not_available', 'price', 'error_object',
               'second_header', 'silent', 'close_immediately', 'header_only_then_close', 'truthful_header_then_corrupt']
+PADDINGS = ['extra_member', 'availability_list', 'leading_blanks']
+TIMEOUTS = [(2.0, 20.0), (30.0, 60.0), (20.0, 3.0), (5.0, 40.0), (60.0, 30.0)]     # server (idle, transfer) configurations of the slow_link family
 HOSTILE_CLIENT = ['oversize', 'invalid_json', 'non_dict_json', 'no_request_keys', 'wrong_types', 'deep_nesting', 'unknown_hash', 'invalid_hash',
                   'disconnect_mid_transfer', 'slow_partial', 'garbage_binary', 'two_requests_glued']
 
@@ -68,8 +83,10 @@ def gen_cases(rng, tier, shard, nshards):
                   'known': i % 2 == 0} for i in range(30 if q else 500)])
     fams.append([{'fam': 'pair', 'seed': rng.getrandbits(48), 'liar': PAIR_LIARS[(i + shard) % len(PAIR_LIARS)], 'liar_first': (i // 2) % 2 == 0,
                   'known': i % 2 == 0} for i in range(28 if q else 500)])
+    fams.append([{'fam': 'request_cap', 'seed': rng.getrandbits(48), 'padding': PADDINGS[(i + shard) % len(PADDINGS)]} for i in range(8 if q else 120)])
+    fams.append([{'fam': 'slow_link', 'seed': rng.getrandbits(48), 'timeouts': list(TIMEOUTS[(i + shard) % len(TIMEOUTS)])} for i in range(5 if q else 80)])
     while any(fams):
-        for f, w in zip(fams, (1, 4, 1, 1, 1)):
+        for f, w in zip(fams, (1, 4, 1, 1, 1, 1, 1)):
             for _ in range(w):
                 if f:
                     yield f.pop(0)
@@ -812,5 +829,6 @@ async def _pair(rec, case, loop):
 
 
 def execute(rec, case):
-    fam = {'honest': _honest, 'liar': _liar, 'hostile_client': _hostile_client, 'race': _race, 'pair': _pair}[case['fam']]
+    fam = {'honest': _honest, 'liar': _liar, 'hostile_client': _hostile_client, 'race': _race, 'pair': _pair, 'request_cap': _request_cap,
+           'slow_link': _slow_link}[case['fam']]
     vclock.run(lambda loop: fam(rec, case, loop), wall_timeout=300)
